@@ -54,7 +54,10 @@ def pair_cover(ctx, g, lp, exe, variant, hargs, keyfn, cap, line=step_line, env=
             cands.append((e1, [e2]))
     total = len(cands)
     if cap and total > cap:
-        cands = rnd.sample(cands, cap)
+        # deterministic sample, independent of the order in which TLC happened to emit the edges
+        import zlib, heapq
+        salt = str(ctx.seed).encode()
+        cands = heapq.nsmallest(cap, cands, key=lambda c: zlib.crc32((g.line(c[0]) + "|" + g.line(c[1][0])).encode(), zlib.crc32(salt)))
     scripts = []
     for e1, tg in cands:
         lp.sid += 1
